@@ -29,6 +29,7 @@ From Robsd Require Import Safety.LexerDefs Safety.SafetyProofs Safety.ExitProofs
   Interp.InterpSpec Interp.InterpProofs Interp.InterpCost Conf.ConfCost
   Conf.ConfDefs Conf.ConfSpec Conf.ConfReject Conf.ConfInst Conf.ConfAbort Conf.ConfAbortInst Conf.ConfPins.
 From RobsdGen Require Import Gen_Interp Gen_Conf.
+From RobsdGen Require Gen_Report.
 Local Open Scope Z_scope.
 
 (* lexer.c: for every input length, every content and every sequence of
@@ -251,3 +252,11 @@ Example C12_example :
   let ops := [OpUngetc 10%N; OpGetc; OpGetc; OpUngetc 97%N; OpGetc; OpGetc; OpGetc; OpUngetc 0%N] in
   lrun 2 (fun i => if i =? 0 then 10%N else 97%N) linit ops = (mklstate 2 2 2, false).
 Proof. vm_compute. reflexivity. Qed.
+
+(* /repo f0fc0f7: robsd-report -m robsd-regress says why it fails when a log cannot be read (before: exit 1 with empty
+   standard error).  Standard error is not an output of the report model, so this is a PIN on the source, not a theorem about
+   behaviour: the translator reads which of the two bodies regress_report_step_log has; with the silent one this proof fails
+   and C12's report lane (a row naming a directory as its log) shows the rejection without a diagnostic. *)
+Theorem C12_report_regress_unreadable_log_is_diagnosed_now : RobsdGen.Gen_Report.regress_unreadable_log_warns = true.
+Proof. exact eq_refl. Qed.
+Print Assumptions C12_report_regress_unreadable_log_is_diagnosed_now.
